@@ -93,6 +93,7 @@ type w1Actor struct {
 	SlowMs     int64  `json:"slow_ms,omitempty"`
 	FailAt     int64  `json:"fail_at,omitempty"`
 	LateWrites int64  `json:"late_writes,omitempty"`
+	BadDesc    bool   `json:"bad_desc,omitempty"` // publishes one track only: rejected by an always-available path, whose tracks are fixed
 }
 
 type w1Body struct {
@@ -380,6 +381,14 @@ func (w *w1World) Gen(rng *rand.Rand, property, tier string) (any, simrt.Sched) 
 			r.Ops = append(r.Ops, w1Op{Op: "sleep", Ms: ms * int64(5+rng.Intn(int(n)/2))})
 		}
 		b.Actors = append(b.Actors, a, r)
+		if rng.Intn(3) == 0 {
+			// a rival whose tracks do not fit the always-available stream: it is refused, possibly after
+			// the current publisher has been closed to make room for it
+			x := w1Actor{Kind: "pub", Path: "s1", Shape: "1phase", BadDesc: true, StartMs: st + ms*int64(5+rng.Intn(int(n)-10)),
+				User: "admin", Pass: "adminpw", IP: "127.0.0.1"}
+			x.Ops = append(x.Ops, w1Op{Op: "session", N: 3, Ms: 1})
+			b.Actors = append(b.Actors, x)
+		}
 		npub = rng.Intn(2)
 	}
 	for i := 0; i < npub; i++ {
@@ -727,6 +736,9 @@ func (h *w1Harness) runPub(idx int, a *w1Actor) {
 			time.Sleep(time.Duration(w1DelayTable[(idx+si)%len(w1DelayTable)]) * time.Millisecond)
 		}
 		desc := h.mkDesc()
+		if a.BadDesc {
+			desc.Medias = desc.Medias[:1]
+		}
 		ar := h.accessReq(a, &p.id, true)
 		if skipAuth {
 			ar = defs.PathAccessRequest{Name: a.Path, Publish: true, SkipAuth: true}
@@ -760,6 +772,9 @@ func (h *w1Harness) runPub(idx int, a *w1Actor) {
 			case <-p.closed.C():
 			}
 			fm := int(serial % 2)
+			if a.BadDesc {
+				fm = 0
+			}
 			w1WriteUnit(res2.SubStream, desc, name, int64(idx), fm, serial, serial*160)
 			serial++
 		}
